@@ -221,6 +221,11 @@ class Samples:
         cls = self.__class__
         result = cls.__new__(cls)
         result.__dict__.update(self.__dict__)
+        if self.mode == "w":
+            # A copy of a writer does not own the file: the pending samples belong to
+            # the original, and closing or dropping the copy writes nothing
+            result._buffer = []
+            result._closed = True
         return result
 
     def __deepcopy__(self, memo):
@@ -232,11 +237,10 @@ class Samples:
             return self
 
     def close(self):
-        if self.mode == "w":
-            self.flush_buffer()
-
         if hasattr(self, "_closed") and self._closed:
             return
+        if self.mode == "w":
+            self.flush_buffer()
         self._closed = True
         if self.filetype == "HDF5":
             # Close HDF5 file if open
